@@ -11,7 +11,7 @@ use {
 use {
     super::std_stream::StdStream,
     crate::{
-        util::{io_err, write_buffered},
+        util::{io_err, write_buffered, write_buffered_with},
         writers::LogWriter,
         DeferredNow, EffectiveWriteMode, FormatFunction, WriteMode,
     },
@@ -148,12 +148,16 @@ impl LogWriter for StdWriter {
                 )
             }
             InnerStdWriter::Buffered(m_w) => {
-                let mut w = m_w.lock().map_err(|_e| io_err("Poison"))?;
-                write_buffered(
+                // the mutex is taken only after the record is formatted: a log call from within
+                // a Display or Debug implementation must not find it locked by its own thread
+                write_buffered_with(
                     self.format,
                     now,
                     record,
-                    &mut *w,
+                    |line| {
+                        let mut w = m_w.lock().map_err(|_e| io_err("Poison"))?;
+                        w.write_all(line)
+                    },
                     #[cfg(test)]
                     Some(&self.validation_buffer),
                 )
